@@ -11,11 +11,20 @@ import RV.Base.Proto
     read skolemize | qname <term> | cbd <node>
     read copy                -> ok    compare functions, set operators (work on copies)
     read ctxs | trig | jsonld | jsonldbuggy | graphs
-    read query <gvar 0|1> <f:g|n:g,…|-> <load 0|1> <kind s|a|c|d> <GRAPH consts g,…|->
+    read query <gvar 0|1> <f:g|n:g,…|-> <load 0|1> <kind s|a|c|d> <GRAPH consts g,…|-> <dgUnion 0|1> <body spo|s|gspo|x>
                                       dataset clause in order; i50/i51 = loadable documents
-    read contains4 <g> <how 0|1> | quads4 <g> <how> | triples4 <g> <how> | triplesctx <g>
+    read contains4 <g> <how 0|1> <s p o> | quads4 … | triples4 … | triplesctx <g> <s p o>     (`*` = wildcard)
+    read len | iter | triples <s p o> | contains3 <s p o>
+    read agglen <g,g,…> | aggtriples <g,…> <s p o> | aggcontains … | aggquads …     ReadOnlyGraphAggregate over views
     foreign <g> s p o        -> ok    `_graph(foreign graph)`: the documented WRITE (not a ReadOp)
-    obs                      -> `s,p,o,g … | names…`   (unsorted; the harness sorts both sides)
+    obs                      -> `s,p,o,g … | names… | bound namespace ids…`   (unsorted; the harness sorts both sides)
+  round g:
+    nsof <term> <ns>         -> ok    the namespace id of an IRI term (table owned by the harness)
+    bind <ns>                -> ok    NamespaceManager.bind before the reads
+    view <g>                 -> ok    the reads go through `ds.get_context(g)` (State.runView)
+    read turtle <base ns|-> | longturtle <canon> <base> | trig <base>
+                                      base = the namespace the `base=` option makes relative (no getQName there)
+    every `read …` answers the rendered skeleton output (`Out`), the harness compares the ones it can observe
 -/
 open RV RV.C13 RV.Proto
 
@@ -37,12 +46,52 @@ def gnames? (s : State) (w : String) : Option (List GName) :=
 
 def qkind? (w : String) : Option QKind :=
   if w = "s" then some .select else if w = "a" then some .ask
-  else if w = "c" then some (.construct (fun r => r.map (fun x => (x, 10, x))))
+  else if w = "c" then some (.construct (fun r => match r with | [a, b, c] => [(a, b, c)] | _ => []))   -- CONSTRUCT { ?s ?p ?o }
   else if w = "d" then some (.describe (fun x => 4 ≤ x && x ≤ 9))
   else none
 
-/-- namespaces as the driver sees them: every predicate / class id is its own namespace -/
-def drvNs (t : Nat) : Option Nat := if 10 ≤ t && t ≤ 29 then some t else none
+/-- graph names inside result rows -/
+def gcode : GName → Nat
+  | .dflt => 0
+  | .iri n => 100 + n
+  | .bnode n => 200 + n
+
+/-- the evaluation proper, for the query shapes the harness can observe exactly:
+    spo  = `{ ?s ?p ?o }` projected to ?s ?p ?o;  s = the same projected to ?s (DESCRIBE ?s);
+    gspo = `GRAPH ?g|<g> { ?s ?p ?o }` projected to ?g ?s ?p ?o;  x = anything else (answer not compared) -/
+def body? (w : String) : Option (View → List (List Nat)) :=
+  if w = "spo" then some (fun v => v.dflt.map (fun t => [t.1, t.2.1, t.2.2]))
+  else if w = "s" then some (fun v => v.dflt.map (fun t => [t.1]))
+  else if w = "gspo" then
+    some (fun v => v.named.flatMap (fun b => b.2.map (fun t => [gcode b.1, t.1, t.2.1, t.2.2])))
+  else if w = "x" then some (fun v => [v.dflt.map (·.1)])
+  else none
+
+def pat? (a b c : String) : Option Pat := do
+  let a ← optNat? a
+  let b ← optNat? b
+  let c ← optNat? c
+  pure (a, b, c)
+
+/-- driver state: the model state, the harness's term → namespace table, the view the reads go through -/
+structure D where
+  st : State
+  nsTab : List (Nat × Nat)
+  view : Option GName
+
+def lookupNs : List (Nat × Nat) → Nat → Option Nat
+  | [], _ => none
+  | (t, n) :: rest, x => if t = x then some n else lookupNs rest x
+
+/-- `nsOf` handed to the serializer models: the table, minus the namespace the `base=` option makes relative
+    (`relativize(node) is not node`: the Turtle family writes `<rel>` and never calls `getQName`) -/
+def drvNs (d : D) (base : Option Nat) (t : Nat) : Option Nat :=
+  match lookupNs d.nsTab t with
+  | none => none
+  | some n => if base = some n then none else some n
+
+def base? (w : String) : Option (Option Nat) :=
+  if w = "-" then some none else w.toNat?.map some
 
 def clause? (s : State) (w : String) : Option Clause :=
   if w.startsWith "f:" then (gname? s (w.drop 2).toString).map Clause.dflt
@@ -62,6 +111,20 @@ def harnessDocs : GName → Option (List Triple)
 def showState (s : State) : String :=
   " ".intercalate (s.quads.map (fun q => showNats [q.1.1, q.1.2.1, q.1.2.2] ++ "," ++ showG s q.2))
     ++ " | " ++ " ".intercalate (s.graphNames.map (showG s))
+    ++ " | " ++ " ".intercalate (s.ns.map toString)
+
+def showT (t : Triple) : String := showNats [t.1, t.2.1, t.2.2]
+
+def showOut (s : State) : Out → String
+  | .triples ts => "T " ++ " ".intercalate (ts.map showT)
+  | .quads qs => "Q " ++ " ".intercalate (qs.map (fun q => showT q.1 ++ "," ++ showG s q.2))
+  | .blocks bs => "B " ++ " ".intercalate (bs.map (fun b => showG s b.1 ++ ":" ++ ";".intercalate (b.2.map showT)))
+  | .names gs => "N " ++ " ".intercalate (gs.map (showG s))
+  | .bool b => if b then "b 1" else "b 0"
+  | .nat n => "n " ++ toString n
+  | .rows rs => "R " ++ " ".intercalate (rs.map showNats)
+  | .pairs ps => "P " ++ " ".intercalate (ps.map (fun p => showNats [p.1, p.2]))
+  | .err => "E"
 
 def init? (cfg : String) : Option State :=
   if cfg = "ds" ∨ cfg = "view" then some ⟨[], [], false, true, .dflt, []⟩
@@ -76,57 +139,83 @@ def ctxArg (g : GName) (how : String) : Option CtxArg :=
 
 def anyPat : Pat := (none, none, none)
 
-def readOp? (s : State) : List String → Option ReadOp
+def readOp? (d : D) (s : State) : List String → Option ReadOp
   | ["pure"] => some .iter
   | ["copy"] => some (.canonical s.dname id)
   | ["ctxs"] => some .serializeCtxs
-  | ["trig"] => some (.serializeTrig drvNs)
+  | ["trig", b] => (base? b).map (fun b => .serializeTrig (drvNs d b))
   | ["flat"] => some .serializeFlat
-  | ["turtle"] => some (.serializeTurtle drvNs)
-  | ["longturtle", c] => some (.serializeLongTurtle drvNs (c = "1") (fun ts => ts.map (fun t => (t.1 + 1000, t.2.1, t.2.2))))
-  | ["xml"] => some (.serializeXml drvNs)
-  | ["prettyxml", d] => d.toNat?.map (fun d => .serializePrettyXml drvNs 12 d)
+  | ["turtle", b] => (base? b).map (fun b => .serializeTurtle (drvNs d b))
+  | ["longturtle", c, b] => (base? b).map (fun b =>
+      .serializeLongTurtle (drvNs d b) (c = "1") (fun ts => ts.map (fun t => (t.1 + 1000, t.2.1, t.2.2))))
+  | ["xml"] => some (.serializeXml (drvNs d none))
+  | ["prettyxml", k] => k.toNat?.map (fun k => .serializePrettyXml (drvNs d none) 12 k)
   | ["patch"] => some .serializePatch
   | ["patchtarget"] => some (.serializePatchTarget (((2, 10, 3), .iri 1) :: ((3, 15, 20), .dflt) :: s.quads.drop 1))
   | ["skolemize"] => some (.skolemize (· + 1000))
-  | ["qname", t] => t.toNat?.map (fun t => .qname drvNs t)
+  | ["qname", t] => t.toNat?.map (fun t => .qname (drvNs d none) t)
   | ["cbd", n] => n.toNat?.map (fun n => .cbd n (fun x => 4 ≤ x && x ≤ 9))
   | ["jsonld"] => some .serializeJsonld
   | ["graphs"] => some .graphs
-  | ["query", gv, cl, lg, kind, consts] => do
+  | ["query", gv, cl, lg, kind, consts, dgu, body] => do
     let cl ← clauses? s cl
     let consts ← gnames? s consts
     let k ← qkind? kind
-    pure (.query ⟨cl, gv = "1", consts, lg = "1", harnessDocs, fun v => [v.dflt.map (·.1)], k⟩)
-  | ["contains4", g, how] => do let g ← gname? s g; let c ← ctxArg g how; pure (.contains4 anyPat c)
-  | ["quads4", g, how] => do let g ← gname? s g; let c ← ctxArg g how; pure (.quads4 anyPat c)
-  | ["triples4", g, how] => do let g ← gname? s g; let c ← ctxArg g how; pure (.triples4 anyPat c)
-  | ["triplesctx", g] => do let g ← gname? s g; pure (.triplesCtx anyPat g)
+    let b ← body? body
+    pure (.query ⟨cl, gv = "1", consts, lg = "1", harnessDocs, b, k, dgu = "1"⟩)
+  | ["agglen", gs] => (gnames? s gs).map .aggLen
+  | ["aggtriples", gs, a, b, c] => do let gs ← gnames? s gs; let p ← pat? a b c; pure (.aggTriples gs p)
+  | ["aggcontains", gs, a, b, c] => do let gs ← gnames? s gs; let p ← pat? a b c; pure (.aggContains gs p)
+  | ["aggquads", gs, a, b, c] => do let gs ← gnames? s gs; let p ← pat? a b c; pure (.aggQuads gs p)
+  | ["len"] => some .len
+  | ["iter"] => some .iter
+  | ["triples", a, b, c] => (pat? a b c).map .slice
+  | ["contains3", a, b, c] => (pat? a b c).map .contains3
+  | ["contains4", g, how, a, b, c] => do
+    let g ← gname? s g; let c' ← ctxArg g how; let p ← pat? a b c; pure (.contains4 p c')
+  | ["quads4", g, how, a, b, c] => do
+    let g ← gname? s g; let c' ← ctxArg g how; let p ← pat? a b c; pure (.quads4 p c')
+  | ["triples4", g, how, a, b, c] => do
+    let g ← gname? s g; let c' ← ctxArg g how; let p ← pat? a b c; pure (.triples4 p c')
+  | ["triplesctx", g, a, b, c] => do let g ← gname? s g; let p ← pat? a b c; pure (.triplesCtx p g)
   | _ => none
 
-def step (s : State) : List String → State × String
-  | ["reset", cfg] =>
-    match init? cfg with
-    | some s0 => (s0, "ok")
-    | none => (s, "bad-op")
+def stepSt (d : D) (s : State) : List String → Option (State × String)
+  | ["reset", cfg] => (init? cfg).map (fun s0 => (s0, "ok"))
   | ["quad", a, b, c, g] =>
     match a.toNat?, b.toNat?, c.toNat?, gname? s g with
-    | some a, some b, some c, some g => (s.add ((a, b, c), g), "ok")
-    | _, _, _, _ => (s, "bad-op")
-  | ["reg", g] =>
-    match gname? s g with
-    | some g => (s.register g, "ok")
-    | none => (s, "bad-op")
+    | some a, some b, some c, some g => some (s.add ((a, b, c), g), "ok")
+    | _, _, _, _ => none
+  | ["reg", g] => (gname? s g).map (fun g => (s.register g, "ok"))
+  | ["bind", n] => n.toNat?.map (fun n => (s.bindNs n, "ok"))
   | ["foreign", g, a, b, c] =>
     match a.toNat?, b.toNat?, c.toNat?, gname? s g with
-    | some a, some b, some c, some g => (s.graphForeign g [(a, b, c)], "ok")
-    | _, _, _, _ => (s, "bad-op")
-  | ["obs"] => (s, showState s)
-  | "read" :: "jsonldbuggy" :: [] => ((s.serializeJsonldBuggy).1, "ok")
+    | some a, some b, some c, some g => some (s.graphForeign g [(a, b, c)], "ok")
+    | _, _, _, _ => none
+  | ["obs"] => some (s, showState s)
+  | "read" :: "jsonldbuggy" :: [] => some ((s.serializeJsonldBuggy).1, "ok")
   | "read" :: rest =>
-    match readOp? s rest with
-    | some r => ((s.run r).1, "ok")
-    | none => (s, "bad-op")
-  | _ => (s, "bad-op")
+    match d.view with
+    | none => (readOp? d s rest).map (fun r => ((s.run r).1, showOut s (s.run r).2))
+    | some g => (readOp? d (s.asView g) rest).map (fun r => ((s.runView g r).1, showOut s (s.runView g r).2))
+  | _ => none
 
-def main : IO Unit := RV.Proto.run step (⟨[], [], false, true, .dflt, []⟩ : State)
+def step (d : D) : List String → D × String
+  | ["nsof", t, n] =>
+    match t.toNat?, n.toNat? with
+    | some t, some n => ({ d with nsTab := (t, n) :: d.nsTab }, "ok")
+    | _, _ => (d, "bad-op")
+  | ["view", g] =>
+    match gname? d.st g with
+    | some g => ({ d with view := some g }, "ok")
+    | none => (d, "bad-op")
+  | ["reset", cfg] =>
+    match init? cfg with
+    | some s0 => (⟨s0, [], none⟩, "ok")
+    | none => (d, "bad-op")
+  | ws =>
+    match stepSt d d.st ws with
+    | some (s', o) => ({ d with st := s' }, o)
+    | none => (d, "bad-op")
+
+def main : IO Unit := RV.Proto.run step (⟨⟨[], [], false, true, .dflt, []⟩, [], none⟩ : D)
